@@ -1,5 +1,6 @@
 import ScVerif.Base.Line
 import ScVerif.C14.Acceptor
+import ScVerif.C14.CompositeDrv
 /-! Driver handler for C14 (stateful): one observation per line, answers the acceptor's verdict. -/
 namespace ScVerif.C14
 open ScVerif.Line
@@ -44,5 +45,17 @@ def handle (a : Acc) (toks : List String) : Acc × String :=
     | some o =>
       let (a', v) := accept a o
       (a', showVerdict v)
+
+/-- the driver's state: the register acceptor and the composed-register simulator (ops `c…`, CompositeDrv.lean) -/
+structure DrvState where
+  acc : Acc := Acc.init
+  sim : CSim := {}
+
+def handleAll (s : DrvState) (toks : List String) : DrvState × String :=
+  match chandle s.sim toks with
+  | some (c, out) => ({ s with sim := c }, out)
+  | none =>
+    let (a, out) := handle s.acc toks
+    ({ s with acc := a }, out)
 
 end ScVerif.C14
